@@ -80,7 +80,9 @@ def gen_cast(rng, ledger):
         mul = None if rng.chance(1, 2) else rng.pick([1, 2, 2, 3] + ([0] if not ledger else []))
         vals = {v: "%s%d%s" % (bases[k][0], rng.below(90), rng.pick(["", "", " x", "%", "%d", "%%", "%3", " 5%s"])) for v in VARS if rng.chance(1, 2)}
         w = with_text(rng, vals)
-        cast.append({"base": bases[k], "mul": mul, "role": role, "with": w, "vals": vals})
+        # `b* play 2 doctors`: the plural of a role name is accepted in a multi-actor line (and only there)
+        written = role + "s" if (mul is not None and rng.chance(1, 3)) else role
+        cast.append({"base": bases[k], "mul": mul, "role": role, "written": written, "with": w, "vals": vals})
         if mul is None:
             actors.append({"name": bases[k], "idx": None, "role": role, "vals": vals})
         else:
@@ -167,7 +169,7 @@ def config_text(g, ledger):
         if c["mul"] is None:
             out.append("  %s plays %s%s" % (c["base"], c["role"], w))
         else:
-            out.append("  %s* play %d %s%s" % (c["base"], c["mul"], c["role"], w))
+            out.append("  %s* play %d %s%s" % (c["base"], c["mul"], c.get("written", c["role"]), w))
     out.append("end")
     out.append("script")
     out.append("  tempo 40ms")
@@ -201,7 +203,7 @@ def tokens(g):
         acts = "+".join("%s=%s" % (hexs(n), hexs(g["cmds"][(r["name"], n)])) for n in r["actions"]) or "-"
         rt.append(":".join([hexs(r["name"]), opt(r["parent"]), opt(g["cmds"].get((r["name"], "_spotlight"))),
                             opt(g["cmds"].get((r["name"], "_cleanup"))), acts]))
-    ct = [":".join([hexs(c["base"]), "-" if c["mul"] is None else str(c["mul"]), hexs(c["role"]), hexs(c["with"].strip())]) for c in g["cast"]]
+    ct = [":".join([hexs(c["base"]), "-" if c["mul"] is None else str(c["mul"]), hexs(c.get("written", c["role"])), hexs(c["with"].strip())]) for c in g["cast"]]
     return ",".join(rt) or "-", ",".join(ct) or "-"
 
 
@@ -260,6 +262,8 @@ def run(tier, seed):
             rep.count("cast:lines", len(g["cast"]))
             for c in g["cast"]:
                 rep.count("cast:" + ("single" if c["mul"] is None else "multi N=%d" % c["mul"]) )
+                if c.get("written", c["role"]) != c["role"]:
+                    rep.count("cast:plural role name")
                 rep.count("cast:with " + ("none" if not c["with"] else "multi-line" if "\n" in c["with"] else "one line"))
             for r_ in g["roles"]:
                 rep.count("role:" + ("extends" if r_["parent"] else "plain"))
